@@ -46,28 +46,44 @@ Theorem C01_observed_only_next : forall c s x n cl a',
 Proof. exact observed_only_next. Qed.
 Print Assumptions C01_observed_only_next.
 
-(* an oracle neither votes twice for a nonce nor skips one: in every history without an Unbond of oracle w,
-   the nonces of w's accepted votes are consecutive (hence pairwise distinct) *)
+(* an oracle never has two accepted votes for one nonce: in every history in which the oracle's cursor is never
+   deleted (the code keeps cursors on unbond, or the history has no Unbond of oracle w) the nonces of w's accepted
+   votes are strictly increasing, hence pairwise distinct — for every variant of the code *)
+Theorem C01_oracle_no_second_vote : forall c h w,
+  guarded c (safe_cursor c w) init h ->
+  incr (nonces_of w (vlog (run c init h))) /\ NoDup (nonces_of w (vlog (run c init h))).
+Proof. exact votes_increasing. Qed.
+Print Assumptions C01_oracle_no_second_vote.
+
+(* ... nor skips one: without the cursor lift in GetLastEventNonceByOracle they are consecutive *)
 Theorem C01_oracle_contiguous : forall c h w,
+  c_cursor_clamp c = false ->
   guarded c (no_unbond_of w) init h ->
   consec (nonces_of w (vlog (run c init h))) /\ NoDup (nonces_of w (vlog (run c init h))).
 Proof. exact votes_contiguous. Qed.
 Print Assumptions C01_oracle_contiguous.
 
+(* the repaired code (UnbondedOracle keeps the cursor): the full statement, every history, every oracle *)
+Theorem C01_oracle_no_second_vote_fixed : forall c h w,
+  c_unbond_del c = false ->
+  incr (nonces_of w (vlog (run c init h))) /\ NoDup (nonces_of w (vlog (run c init h))).
+Proof. exact votes_increasing_fixed. Qed.
+Print Assumptions C01_oracle_no_second_vote_fixed.
+
 (* every accepted vote is for exactly the oracle's cursor + 1 and is logged for that oracle *)
-Theorem C01_vote_is_next : forall s b n cl park ms,
-  snd (vote s b n cl park ms) = Ok ->
+Theorem C01_vote_is_next : forall c s b n cl park ms,
+  snd (vote c s b n cl park ms) = Ok ->
   exists o rec, aget Z.eqb b (by_bridger s) = Some o /\ aget Z.eqb o (oracles s) = Some rec /\
-                o_online rec = true /\ n = cursor s o + 1 /\
-                In (o, n) (vlog (fst (vote s b n cl park ms))).
+                o_online rec = true /\ n = cursor c s o + 1 /\
+                In (o, n) (vlog (fst (vote c s b n cl park ms))).
 Proof. exact vote_accept_online. Qed.
 Print Assumptions C01_vote_is_next.
 
-(* the unguarded statement is false of the code: UnbondedOracle deletes the oracle's cursor, so after
-   governance removal + unbond + re-approval + re-bond the same oracle votes again for a still pending nonce
-   (witness replayed on the real keeper by harness/c01, finding C01-1) *)
+(* while UnbondedOracle deletes the cursor the unguarded statement is false: after governance removal, maturity,
+   unbond, re-approval and re-bond the same oracle votes again for a still pending nonce (witness replayed on the
+   real keeper by harness/c01 when the tree has that behaviour: finding C01-1) *)
 Theorem C01_revote_refuted :
-  exists c h, 0 <= c_threshold c /\
+  exists c h, 0 <= c_threshold c /\ c_unbond_del c = true /\
     let s := run c init h in
     exists a, aget keq (1, 1) (atts s) = Some a /\ a_obs a = true /\ last_obs s = 1 /\
               a_votes a = [0; 1; 0] /\ nonces_of 0 (vlog s) = [1; 1] /\
@@ -75,6 +91,14 @@ Theorem C01_revote_refuted :
               100 * dpower (oracles s) (a_votes a) + 99 < 66 * last_total s.
 Proof. exact revote_refuted. Qed.
 Print Assumptions C01_revote_refuted.
+
+(* the same history on the repaired code: the second vote is refused *)
+Theorem C01_revote_refused_when_fixed :
+  let s := run cfg_fixed init h_rebond in
+  last_obs s = 0 /\ nonces_of 0 (vlog s) = [1] /\
+  exists a, aget keq (1, 1) (atts s) = Some a /\ a_obs a = false /\ a_votes a = [0; 1].
+Proof. exact revote_refused_when_fixed. Qed.
+Print Assumptions C01_revote_refused_when_fixed.
 
 (* a parked claim runs its effects at most once *)
 Theorem C01_exec_once : forall c h, NoDup (effects (run c init h)).
@@ -123,6 +147,7 @@ Theorem C01_source_shape :
   gen_vote_threshold = vote_threshold /\ gen_tally_divisor = 100 /\
   gen_change_threshold = change_threshold /\ gen_max_keep = max_keep /\ gen_max_oracles = max_oracles /\
   gen_power_reduction = power_reduction /\
-  gen_writer_sites = expected_writer_sites /\ gen_raw_key_users = expected_raw_key_users.
+  (gen_writer_sites = expected_writer_sites \/ gen_writer_sites = expected_writer_sites_repaired) /\
+  gen_raw_key_users = expected_raw_key_users.
 Proof. exact gen_matches_model. Qed.
 Print Assumptions C01_source_shape.
